@@ -61,10 +61,8 @@ func (m *Params) ParamSetPairs() paramtypes.ParamSetPairs {
 }
 
 func (m *Params) validate() error {
-	if m.EnableVesting {
-		return validatePerBlockReward(m.PerBlockReward)
-	}
-	return nil
+	// SetParams validates the reward whether or not vesting is enabled, so genesis validation has to as well
+	return validatePerBlockReward(m.PerBlockReward)
 }
 
 func DefaultParams() Params {
